@@ -1,6 +1,8 @@
 package trig
 
 import (
+	"math"
+
 	"verifharness/lib"
 	"verifharness/pipe"
 )
@@ -108,6 +110,29 @@ func pickF0(r *lib.Rng) int64 {
 
 func pickRate(r *lib.Rng) int64 { return []int64{10000, 10000, 125000, 1000000}[r.Intn(4)] }
 
+// rates whose period is not a whole number of nanoseconds: realistic ones (300 kHz -> 3333 ns, 1e6/3 Hz -> 3000 ns vs
+// 3000.000..3, a "measured" 156249.7 Hz) and fast ones where the rounding is gross (96 MHz -> 10 ns for 10.42,
+// 70 MHz -> 14 for 14.29, 400 MHz -> 3 for 2.5, 3 MHz -> 333 for 333.3), so that short streams already show it
+func pickFRate(r *lib.Rng) float64 {
+	return []float64{300000, 1e6 / 3, 156249.7, 3e6, 7e7, 9.6e7, 9.6e7, 4e8, 4e8, 6.4e7}[r.Intn(10)]
+}
+
+// setRate gives the case an exact rate, or (one case in three) one with a fractional period
+func setRate(r *lib.Rng, c *Case) {
+	c.Rate = pickRate(r)
+	if r.Chance(1, 3) {
+		c.FRate = pickFRate(r)
+	}
+}
+
+// delayFor: an auto delay of (about) k samples for the case's rate
+func delayFor(c *Case, k int) int64 {
+	if c.FRate > 0 {
+		return int64(math.Round(float64(k) * 1e9 / c.FRate))
+	}
+	return delayNs(k, c.Rate)
+}
+
 func pickLengths(r *lib.Rng) (npre, nsamp int) {
 	npre = r.Pick([]int{3, 3, 4, 5, 6, 8, 10, 12, 16})
 	nsamp = npre + r.Pick([]int{1, 1, 2, 3, 4, 8, 12, 20, 30})
@@ -121,7 +146,7 @@ func pickLengths(r *lib.Rng) (npre, nsamp int) {
 func delayNs(k int, rate int64) int64 { return int64(k) * (1000000000 / rate) }
 
 // RandTS draws trigger settings around a channel whose logical baseline is `base`.
-func RandTS(r *lib.Rng, kinds string, nsamp int, rate int64, base int, signed bool) TS {
+func RandTS(r *lib.Rng, kinds string, nsamp int, c *Case, base int, signed bool) TS {
 	t := TS{ELevel: int32(r.Pick([]int{40, 100, 100, 250, 1000})), ERising: true, LRising: true}
 	for _, k := range kinds {
 		switch k {
@@ -161,7 +186,7 @@ func RandTS(r *lib.Rng, kinds string, nsamp int, rate int64, base int, signed bo
 	if r.Chance(1, 15) {
 		k = -r.Range(1, 5)
 	}
-	t.DelayNs = delayNs(k, rate)
+	t.DelayNs = delayFor(c, k)
 	if r.Chance(1, 4) {
 		t.Veto = r.Pick([]int{1, 5, 50, 75, 200, 600, 1500, 65535})
 	}
@@ -196,7 +221,7 @@ func controlOps(r *lib.Rng, c *Case, bases []int, nblocks int, heavy bool) map[i
 			if len(chans) == 0 {
 				chans = []int{0}
 			}
-			t := RandTS(r, pickKinds(r), nsamp, c.Rate, bases[chans[0]], c.Chans[chans[0]].Signed)
+			t := RandTS(r, pickKinds(r), nsamp, c, bases[chans[0]], c.Chans[chans[0]].Signed)
 			out[at] = append(out[at], Op{Op: "CT", Chans: chans, TS: &t})
 		case 3:
 			out[at] = append(out[at], Op{Op: "CL", Nsamp: nsamp, Npre: npre})
@@ -234,7 +259,8 @@ func assemble(c *Case, raws [][]int, blocks []int, ctl map[int][]Op, r *lib.Rng)
 // GenRandom: DESIGN section 7 C01 — generic streams, boundary-hunting partitions, all trigger mixtures.
 func GenRandom(r *lib.Rng, id int64, tier string) Case {
 	npre, nsamp := pickLengths(r)
-	c := Case{ID: id, Npre: npre, Nsamp: nsamp, Rate: pickRate(r), F0: pickF0(r), T0: int64(1e9) + int64(r.Range(0, 1000000)), Note: "random"}
+	c := Case{ID: id, Npre: npre, Nsamp: nsamp, F0: pickF0(r), T0: int64(1e9) + int64(r.Range(0, 1000000)), Note: "random"}
+	setRate(r, &c)
 	nchan := r.Pick([]int{1, 1, 1, 2})
 	n := r.Range(nsamp+5, 14*nsamp)
 	if tier == "thorough" {
@@ -258,7 +284,7 @@ func GenRandom(r *lib.Rng, id int64, tier string) Case {
 		}
 		cc := ChanCfg{Signed: signed}
 		if r.Chance(2, 3) {
-			t := RandTS(r, pickKinds(r), nsamp, c.Rate, bases[i], signed)
+			t := RandTS(r, pickKinds(r), nsamp, &c, bases[i], signed)
 			if r.Chance(1, 10) {
 				t.EMulti = true // must be forced off by PrepareRun
 			}
@@ -276,7 +302,8 @@ func GenRandom(r *lib.Rng, id int64, tier string) Case {
 // just outside the +-nsamp shadow of an edge trigger; fresh starts with restored settings and reconfigurations.
 func GenBoundary(r *lib.Rng, id int64, tier string) Case {
 	npre, nsamp := pickLengths(r)
-	c := Case{ID: id, Npre: npre, Nsamp: nsamp, Rate: pickRate(r), F0: pickF0(r), T0: int64(2e9), Note: "boundary"}
+	c := Case{ID: id, Npre: npre, Nsamp: nsamp, F0: pickF0(r), T0: int64(2e9), Note: "boundary"}
+	setRate(r, &c)
 	nchan := r.Pick([]int{1, 1, 2})
 	// blocks: mostly a few records long, sometimes shorter than a record
 	var blocks []int
@@ -317,7 +344,7 @@ func GenBoundary(r *lib.Rng, id int64, tier string) Case {
 		if kinds == "" && r.Chance(2, 3) {
 			kinds = "E"
 		}
-		t := RandTS(r, kinds, nsamp, c.Rate, base, signed)
+		t := RandTS(r, kinds, nsamp, &c, base, signed)
 		if t.EFalling && !t.ERising {
 			sign = -1
 		}
@@ -372,7 +399,7 @@ func GenBoundary(r *lib.Rng, id int64, tier string) Case {
 	// channels that start without settings get them through ChangeTriggerState early on
 	for i := range c.Chans {
 		if c.Chans[i].Restored == nil {
-			t := RandTS(r, pickKinds(r), nsamp, c.Rate, bases[i], c.Chans[i].Signed)
+			t := RandTS(r, pickKinds(r), nsamp, &c, bases[i], c.Chans[i].Signed)
 			at := r.Intn(2)
 			ctl[at] = append(ctl[at], Op{Op: "CT", Chans: []int{i}, TS: &t})
 		}
@@ -462,6 +489,11 @@ func Corpus() []Case {
 	addPulse(u, 150, 500, 30)
 	out = append(out, Case{Npre: 4, Nsamp: 16, Rate: 10000, F0: 0, T0: 1e9, Chans: []ChanCfg{{Restored: &au}},
 		Ops: blocksOf(u, 50, 1, 2, 47, 100, 100), Note: "auto with veto"})
+	// auto only at 300 kHz (frame period 3333 ns in the blocks, 3333.33.. in truth), delay 50 ms = 15000 samples,
+	// successive auto triggers in different blocks
+	a300 := TS{Auto: true, DelayNs: 50e6, ELevel: 100, ERising: true, LLevel: 4000}
+	out = append(out, Case{Npre: 3, Nsamp: 6, Rate: 10000, FRate: 300000, F0: 0, T0: 1e9, Chans: []ChanCfg{{Restored: &a300}},
+		Ops: blocksOf(flat(49000, 2000), 7000, 7000, 7000, 7000, 7000, 7000, 7000), Note: "auto across blocks at 300 kHz"})
 	return out
 }
 
@@ -469,7 +501,8 @@ func Corpus() []Case {
 // (the level pass must skip |k-E| < nsamp and nothing else), block boundaries near the three events.
 func GenShadow(r *lib.Rng, id int64, tier string) Case {
 	npre, nsamp := pickLengths(r)
-	c := Case{ID: id, Npre: npre, Nsamp: nsamp, Rate: pickRate(r), F0: pickF0(r), T0: int64(3e9), Note: "shadow"}
+	c := Case{ID: id, Npre: npre, Nsamp: nsamp, F0: pickF0(r), T0: int64(3e9), Note: "shadow"}
+	setRate(r, &c)
 	signed := r.Chance(1, 3)
 	base := r.Pick([]int{1000, 20000, 32700, 60000})
 	if signed {
@@ -483,13 +516,13 @@ func GenShadow(r *lib.Rng, id int64, tier string) Case {
 		thr = base - 30
 	}
 	ts := TS{Edge: true, ERising: true, ELevel: int32(r.Pick([]int{250, 1000})), Level: true, LRising: rising,
-		LLevel: thr & 0xffff, DelayNs: delayNs(100000, c.Rate)}
+		LLevel: thr & 0xffff, DelayNs: delayFor(&c, 100000)}
 	if !signed {
 		ts.LLevel = thr
 	}
 	if r.Chance(1, 4) {
 		ts.Auto = true
-		ts.DelayNs = delayNs(r.Pick([]int{nsamp, 2*nsamp + 1, 5 * nsamp}), c.Rate)
+		ts.DelayNs = delayFor(&c, r.Pick([]int{nsamp, 2*nsamp + 1, 5 * nsamp}))
 	}
 	n := 9 * nsamp
 	x := flat(n, base)
@@ -536,7 +569,8 @@ func GenShadow(r *lib.Rng, id int64, tier string) Case {
 // GenGrow: a channel started with very short records is reconfigured to much longer ones (the retained history is
 // sized by the old length at that moment), then pulses arrive at block boundaries placed relative to the new lengths.
 func GenGrow(r *lib.Rng, id int64, tier string) Case {
-	c := Case{ID: id, Npre: 3, Nsamp: r.Pick([]int{4, 5, 6}), Rate: pickRate(r), F0: pickF0(r), T0: int64(4e9), Note: "grow"}
+	c := Case{ID: id, Npre: 3, Nsamp: r.Pick([]int{4, 5, 6}), F0: pickF0(r), T0: int64(4e9), Note: "grow"}
+	setRate(r, &c)
 	npre2 := r.Pick([]int{3, 5, 10, 16})
 	nsamp2 := npre2 + r.Pick([]int{8, 14, 20, 30})
 	signed := r.Chance(1, 4)
@@ -569,6 +603,49 @@ func GenGrow(r *lib.Rng, id int64, tier string) Case {
 	c.Chans = []ChanCfg{{Signed: signed, Restored: &ts}}
 	ctl := map[int][]Op{}
 	ctl[r.Intn(2)] = []Op{{Op: "CL", Nsamp: nsamp2, Npre: npre2}}
+	assemble(&c, [][]int{toRaw(x, signed)}, blocks, ctl, r)
+	return c
+}
+
+// GenDrift: auto triggers whose successive members fall in different blocks, at sample rates whose period is not a
+// whole number of nanoseconds: the delay in samples is int(AutoDelay.Seconds()*SampleRate+0.5), NOT AutoDelay divided
+// by the (rounded) frame period the blocks carry. Quiet data (sometimes with an enabled but silent edge trigger), no
+// veto, short records, delays of 100..400 samples, blocks shorter than the delay.
+func GenDrift(r *lib.Rng, id int64, tier string) Case {
+	npre := r.Pick([]int{3, 3, 4})
+	nsamp := npre + r.Pick([]int{1, 2, 3})
+	c := Case{ID: id, Npre: npre, Nsamp: nsamp, Rate: 10000, FRate: pickFRate(r), F0: pickF0(r), T0: int64(5e9), Note: "drift"}
+	if r.Chance(1, 6) {
+		c.FRate = 0 // the same shape at an exact rate
+	}
+	d := r.Range(100, 400)
+	ts := TS{Auto: true, DelayNs: delayFor(&c, d), ELevel: 100, ERising: true, LLevel: 4000}
+	if r.Chance(1, 3) {
+		ts.Edge = true
+	}
+	var blocks []int
+	n := 0
+	for n < 5*d {
+		b := r.Range(d/4, d)
+		if r.Chance(1, 5) {
+			b = r.Range(1, nsamp+2)
+		}
+		blocks = append(blocks, b)
+		n += b
+	}
+	signed := r.Chance(1, 4)
+	x := flat(n, 3000)
+	cc := ChanCfg{Signed: signed}
+	ctl := map[int][]Op{}
+	if r.Chance(2, 3) {
+		cc.Restored = &ts
+	} else {
+		ctl[r.Intn(2)] = append(ctl[0], Op{Op: "CT", Chans: []int{0}, TS: &ts})
+	}
+	if r.Chance(1, 4) {
+		ctl[r.Range(1, len(blocks)-1)] = append(ctl[0][:0:0], Op{Op: "CL", Nsamp: nsamp, Npre: npre})
+	}
+	c.Chans = []ChanCfg{cc}
 	assemble(&c, [][]int{toRaw(x, signed)}, blocks, ctl, r)
 	return c
 }
